@@ -1,6 +1,7 @@
 package drive
 
 import (
+	"goatverif/btc"
 	"google.golang.org/protobuf/encoding/protowire"
 	"encoding/json"
 	"fmt"
@@ -314,6 +315,24 @@ func (d *robust) height() error {
 			}
 			off++
 			bads = append(bads, bad{m.Kind, bz})
+		}
+		// transactions with two messages: a VALID voted message followed by one that fails (the same vote again: its sequence
+		// is used up). Everything the first message did - sequence, accumulator, implicit acceptance - must be undone. Two
+		// variants, for the current sequence and the next one (whichever fits after this block's other transactions).
+		for dv := uint64(0); dv < 2; dv++ {
+			vc2 := *vc
+			vc2.Seq += dv
+			raw, _ := btc.Tx(r, []btc.Out{{Value: int64(30000 + r.Intn(100000)), Script: btc.SystemScript(d.bg.curKey().Pub)}}, r.Intn(20))
+			m1 := &bitcointypes.MsgNewConsolidation{Proposer: propBech, NoWitnessTx: raw}
+			m1.Vote, _ = a.fullVote(&vc2, "NewConsolidation", m1.VoteSigDoc(), false)
+			m2 := &bitcointypes.MsgNewConsolidation{Proposer: propBech, NoWitnessTx: raw, Vote: m1.Vote}
+			prop := a.member(vc.Proposer)
+			_, accSeq, _ := c.Account(prop.Addr)
+			sq := accSeq + uint64(off)
+			if bz, err := c.SignTx(prop.Priv, []sdk.Msg{m1, m2}, sim.SignOpts{Seq: &sq}); err == nil {
+				off++
+				bads = append(bads, bad{fmt.Sprintf("multi/validVoteThenReplay+%d", dv), bz})
+			}
 		}
 		// byte-level mutants of well-formed transactions
 		for _, t := range bp.Txs {
